@@ -6,6 +6,7 @@ import (
 	"os"
 	"path"
 	"path/filepath"
+	"strings"
 
 	zerr "github.com/DemoHn/Zn/pkg/error"
 	"github.com/DemoHn/Zn/pkg/io"
@@ -120,6 +121,14 @@ func (z *Interpreter) LoadFile(file string) *Interpreter {
 			case r.LIB_TYPE_VENDOR:
 			case r.LIB_TYPE_CUSTOM:
 				dirs := info.LibPath
+				// every part of a module name is a plain directory or file name: an empty part,
+				// "." / ".." or a path separator would let several spellings denote one file
+				// (its body would run once per spelling) or reach outside the main file's directory
+				for _, part := range dirs {
+					if part == "" || part == "." || part == ".." || strings.ContainsAny(part, "/\\") {
+						return nil, zerr.ModuleNotFound(info.OriginalName)
+					}
+				}
 				// add .zn for last item
 				dirs[len(dirs)-1] = dirs[len(dirs)-1] + ".zn"
 
